@@ -28,9 +28,14 @@ Compute(md) ==
       md2 == MMul(Rt, MMul(Inv2(G), dv, 2, 2, 1), 3, 2, 1)
       Dab == Inv2(<<<<Dinv[1][1], Dinv[1][2]>>, <<Dinv[2][1], Dinv[2][2]>>>>)           \* b point-estimated: covariance of a
       Db == RInv(Dinv[3][3])                                                           \* a point-estimated: variance of b
+      \* the same model with a non-standard prior covariance S = diag(4, 1/4, 1): DS = (S^-1 + R^T N^-1 R)^-1, mS = DS j
+      Sinv == <<<<R(1, 4), Z(0), Z(0)>>, <<Z(0), Z(4), Z(0)>>, <<Z(0), Z(0), Z(1)>>>>
+      DSinv == MAdd(Sinv, MMul(RtN, Rm, 3, 2, 3), 3, 3)
+      DS == Inv3(DSinv)
+      mS == MMul(DS, jj, 3, 3, 1)
       qq == MMul(MT(dv, 2, 1), MMul(Inv2(G), dv, 2, 2, 1), 1, 2, 1)[1][1]                \* d^T (R R^T + N)^-1 d
       detN == RMul(Nc[1][1], Nc[2][2])
-  IN [Dinv |-> Dinv, D |-> D, m |-> mm, j |-> jj, Da |-> Dab, Db |-> Db, detDinv |-> Det3(Dinv), q |-> qq, detG |-> Det2(G),
+  IN [Dinv |-> Dinv, D |-> D, m |-> mm, j |-> jj, Da |-> Dab, Db |-> Db, DS |-> DS, mS |-> mS, okS |-> MMul(DS, DSinv, 3, 3, 3) = Id(3) /\ MT(DS, 3, 3) = DS /\ MMul(DSinv, mS, 3, 3, 1) = jj, detDinv |-> Det3(Dinv), q |-> qq, detG |-> Det2(G),
       okdet |-> Det2(G) = RMul(detN, Det3(Dinv)),                                          \* matrix determinant lemma: |R R^T + N| = |N| |1 + R^T N^-1 R|
       ok |-> /\ MMul(D, Dinv, 3, 3, 3) = Id(3) /\ MT(D, 3, 3) = D
              /\ \A i \in 1..3 : RLt(Z(0), D[i][i]) /\ ~RLt(Z(1), D[i][i])               \* data can only reduce the prior variance 1
@@ -65,11 +70,11 @@ Spec == Init /\ [][Next]_<<model, res>>
 ElboLaw == /\ HVal(model, [i \in 1..3 |-> res.m[i][1]]) = RMul(R(1, 2), res.q)
            /\ ~RLt(HVal(model, M0), RMul(R(1, 2), res.q)) /\ ~RLt(HVal(model, M1), RMul(R(1, 2), res.q))
            /\ res.okdet
-Law == res.ok /\ KLLaw(model, res.Dinv) /\ ElboLaw
+Law == res.ok /\ res.okS /\ KLLaw(model, res.Dinv) /\ ElboLaw
 RJ(x) == <<x[1], x[2]>>
 MJ(M, n, k) == [i \in 1..n |-> [c \in 1..k |-> RJ(M[i][c])]]
 Emit == PrintT(ToJson([R |-> model.R, ninv |-> <<RJ(model.ninv[1]), RJ(model.ninv[2])>>, d |-> model.d, Dinv |-> MJ(res.Dinv, 3, 3), D |-> MJ(res.D, 3, 3),
-                       m |-> MJ(res.m, 3, 1), Da |-> MJ(res.Da, 2, 2), Db |-> RJ(res.Db), detDinv |-> RJ(res.detDinv), q |-> RJ(res.q),
+                       m |-> MJ(res.m, 3, 1), DS |-> MJ(res.DS, 3, 3), mS |-> MJ(res.mS, 3, 1), Da |-> MJ(res.Da, 2, 2), Db |-> RJ(res.Db), detDinv |-> RJ(res.detDinv), q |-> RJ(res.q),
                        m0 |-> [i \in 1..3 |-> RJ(M0[i])], m1 |-> [i \in 1..3 |-> RJ(M1[i])], resid |-> [k \in 1..2 |-> [i \in 1..3 |-> RJ(Res[k][i])]],
                        kl |-> [c \in 1..4 |-> LET mm == IF c <= 2 THEN M0 ELSE M1  mir == (c % 2 = 1) IN
                                  [mirror |-> mir, at |-> IF c <= 2 THEN 0 ELSE 1, val |-> RJ(KLVal(model, mm, mir)), grad |-> [i \in 1..3 |-> RJ(KLGrad(model, mm, mir)[i])]]]]))
